@@ -30,7 +30,7 @@ META = {
 META['explanation'] += ' ' + 'R9: explicit rejections against the reviewed table. R10: certificate validity bounds through the shared timestamp primitives. Spec items of the messages name the attribute they carry (consistent swaps on both sides are findings).'
 META['explanation'] += ' ' + "R11: the curve parameter of EdDSA keys per algorithm name (RFC 8709), by evaluation. R12: the SEC1 point of ECDSA keys evaluated for coordinates with leading zero octets, with the dependency's octet_bit_string modelled as asn1crypto's from_coords. The name-list table holds lists with an empty name in every position (must be refused)."
 
-META['explanation'] += ' ' + 'R13: what the composer hands to a primitive is the stored attribute, never a constant in its place. R14: algorithm names of the name-lists are matched exactly (shared with C10.R10).'
+META['explanation'] += ' ' + 'R13: what the composer hands to a primitive is the stored attribute, never a constant in its place. R14: algorithm names of the name-lists are matched exactly (shared with C10.R10). R15: the subtags a language tag accepts are those of RFC 3066 (evaluated setters).'
 MODULES = {'cryptoparser.ssh.record', 'cryptoparser.ssh.subprotocol', 'cryptoparser.ssh.key'}
 HERE = os.path.dirname(os.path.dirname(os.path.abspath(__file__)))
 
@@ -49,6 +49,7 @@ def check(ctx, report):
     # algorithm names of the KEXINIT name-lists are matched exactly (RFC 4251 6: names are case-sensitive); shared with C10.R10
     from .c10 import registry_names_exact
     registry_names_exact(ctx, report, RULE='C07.R14')
+    language_tags(ctx, report)
     report.rule('C07.R8', 'name-lists: split at commas, order kept, unknown names preserved one by one')
     from ..textlists import string_array_table
     string_array_table(ctx, report, 'C07.R8', 'ssh')
@@ -726,3 +727,56 @@ def ecdsa_points(ctx, report, RULE='C07.R12'):
     for k, v in sorted(problems.items()):
         report.add(RULE, '%s@point[%s]' % (f.construct, k), v)
     report.floor(RULE, 15, 'curves x leading zero patterns')
+
+
+LANGUAGE_SUBTAGS = {
+    # RFC 4253 7.1 -> RFC 3066 2.1: Primary-subtag = 1*8ALPHA, Subtag = 1*8(ALPHA / DIGIT)
+    'primary_subtag': (('en', True), ('x', True), ('i', True), ('abcdefgh', True), ('EN', True),
+                       ('', False), ('abcdefghi', False), ('e1', False), ('419', False), ('a-b', False), ('e n', False)),
+    'subsequent_subtags': ((['US'], True), (['419'], True), (['CH', '1996'], True), (['a1b2c3d4'], True), (['abcdefgh'], True), ([], True),
+                           ([''], False), (['abcdefghi'], False), (['a-b'], False), (['US', ''], False), (['a b'], False), (['a_b'], False)),
+}
+
+
+def language_tags(ctx, report, RULE='C07.R15'):
+    """The languages name-lists of KEXINIT hold RFC 3066 tags: a primary subtag of 1 to 8 letters, further subtags of 1 to 8 letters
+    or digits (``es-419``, ``de-CH-1996``, ``x-a1b2c3d4`` are conformant).  The two property setters of LanguageTag decide what
+    the parser accepts and what can be composed; they are evaluated (sa.miniexec) on subtags on both sides of every bound of that
+    grammar: a conformant subtag must be stored, a malformed one refused with InvalidValue."""
+    from ..miniexec import Evaluator, Obj, Raised, Unsupported, class_call_hook
+    report.rule(RULE, 'language tags: the subtags accepted are 1*8ALPHA first, 1*8(ALPHA / DIGIT) after it (RFC 3066), evaluated on both sides of every bound')
+    c = ctx.model.try_cls('LanguageTag')
+    if c is None:
+        report.error('%s: LanguageTag not found' % RULE)
+        return
+    hook = class_call_hook(c, None, ctx.model)
+    for attr_name, samples in LANGUAGE_SUBTAGS.items():
+        f = c.methods.get(attr_name + '.setter')
+        if f is None:
+            report.undecided.append('%s: LanguageTag.%s has no setter' % (RULE, attr_name))
+            continue
+        report.touch(f)
+        params = [a.arg for a in f.node.args.args]
+        for value, conformant in samples:
+            report.count(RULE)
+            me = Obj()
+            me._repo_class = c
+            try:
+                Evaluator({params[0]: me, params[1]: value}, hook, hook.name_hook_for(f.module, None)).function(f.node)
+                accepted = True
+            except Raised as e:
+                if 'InvalidValue' not in str(e.what):
+                    report.add(RULE, '%s@raises[%s]' % (f.construct, str(e.what)[:30]), '%r: %s is raised, not InvalidValue' % (value, str(e.what)[:60]))
+                    break
+                accepted = False
+            except (Unsupported, AttributeError, TypeError) as e:
+                report.undecided.append('%s: setter of %s not evaluable: %s' % (RULE, attr_name, e))
+                break
+            if accepted != conformant:
+                report.add(RULE, '%s@%s[%s]' % (f.construct, 'refused' if conformant else 'accepted', 'digits' if any(
+                    ch.isdigit() for ch in ''.join(value)) else 'shape'),
+                           'the %s %r is %s, RFC 3066 (1*8ALPHA, then 1*8(ALPHA / DIGIT)) says it is %s: a KEXINIT that carries such a tag is %s' % (
+                               attr_name, value, 'accepted' if accepted else 'refused with InvalidValue', 'conformant' if conformant else 'malformed',
+                               'refused as a whole' if conformant else 'accepted'))
+                break
+    report.floor(RULE, 20, 'evaluated subtags')
